@@ -375,5 +375,9 @@ def wrappers(ctx, rule):
         calls = [q.shape(g.expr_of_call(t), r) for bi, t in g.calls() if t.get("resolved_local")]
         its = [sh for l in range(len(g.locals)) for sh, _, _ in q.def_shapes(g, l, {}) if sh == "IntoIterator::into_iter(arg1)"]
         rets = [sh for sh, _, _ in q.def_shapes(g, 0, r)]
-        ok = calls == ["vlq::encode_vlq(OUT,try(Iterator::next(var:Iter<i64>)))"] and bool(its) and rets == ["Result::Ok{0:OUT}"]
+        ok = calls == ["vlq::encode_vlq(OUT,try(Iterator::next(var:Iter<i64>)))"] and bool(its) and rets in (["Result::Ok{0:OUT}"], ["OUT"])
+        from rules.common import for_each_form
+        fe = for_each_form(g, ["slice::iter(arg1)", "IntoIterator::into_iter(arg1)"])
+        if not ok and fe is not None:
+            ok = len(fe[2]) == 1 and q.wild("vlq::encode_vlq(*,arg2)", fe[2][0]) and calls == [] and rets in (["Result::Ok{0:OUT}"], ["OUT"]) and all(g.dominates(fe[0], r) for r in g.return_blocks())
     ctx.check(ok, rule, g.path, "generate:every-number", "generate_vlq_segment encodes every number of the slice, in order, into one fresh string")
